@@ -29,6 +29,11 @@ EXT_RAISES = {
     'HeaderTuple.__init__': set(),
     'OrderedDict.__init__': set(), 'OrderedDict.__setitem__': set(),
     'OrderedDict.popitem': {'KeyError'},
+    'OrderedDict.__getitem__': {'KeyError'},
+    'OrderedDict.__delitem__': {'KeyError'},
+    'OrderedDict.move_to_end': {'KeyError'},
+    'OrderedDict.__contains__': set(), 'OrderedDict.__len__': set(),
+    'OrderedDict.get': set(), 'OrderedDict.pop': {'KeyError'},
     'MutableMapping.get': set(), 'MutableMapping.items': set(),
     'MutableMapping.update': set(),      # calls __setitem__ of the subclass
     'MutableMapping.keys': set(), 'MutableMapping.values': set(),
